@@ -6,6 +6,8 @@ import (
 )
 
 var vHarnesses = map[string]func(p []int){
+	"H_C18_pure":       func(p []int) { H_C18_pure(p[0], p[1], p[2]) },
+	"H_C18_pure_bytes": func(p []int) { H_C18_pure_bytes(p[0], p[1]) },
 	"H_C17": func(p []int) { H_C17(p[0], p[1], p[2], p[3], p[4], p[5], p[6], p[7], p[8]) },
 	"H_C15_b2bit":          func(p []int) { H_C15_b2bit() },
 	"H_C15_b2bitarr":       func(p []int) { H_C15_b2bitarr(p[0]) },
